@@ -82,3 +82,96 @@ def c13(tier: str) -> int:
         v.sample({'graph': g, 'observed': {k: (obs[g['id']].get('c13') or {}).get(k)
                                            for k in ('bypos',)}})
     return v.finish()
+
+
+def add_weights(cases, rng):
+    for g in cases:
+        n = g['n']
+        w = [rng.randint(1, 9) for _ in range(n)]
+        e = [rng.randint(0, 4) for _ in range(n)]
+        m = max(e) + rng.randint(0, 1)
+        g['weights'] = [
+            {'w': w, 'total': max(w) + rng.randint(0, 3), 'exp': [], 'texp': 0},
+            {'w': [2 ** k for k in e], 'total': 2 ** m, 'exp': e, 'texp': m}]
+        g['lch_depths'] = [1, rng.randint(2, 6)]
+
+
+def c14(tier: str) -> int:
+    v = Verdict('C14', tier)
+    v.assumptions = [
+        'floats returned by wn.similarity are converted by the harness to exact rationals '
+        '(logarithms undone with exp, tolerance 1e-9); TLC compares them with the rational '
+        'arguments of the model',
+        'lin is checked with power-of-two weights only (its value is then rational)',
+        'res: the guide defines it over all common subsumers and says lowest common hypernyms '
+        'suffice; either reading is admitted for non-monotone weights']
+    thorough = tier == 'thorough'
+    v.add_model('MC_Taxonomy N=3 (PathBounds, WupBounds, WupSym, SelfMaximalPath)',
+                tlc_model('MC_Taxonomy'))
+    rng = random.Random(seed() + 14)
+    cases = graphs.cases(tier, seed() + 14, n4=800 if not thorough else 20000,
+                         nrandom=250 if not thorough else 8000, maxn=7 if not thorough else 8)
+    add_weights(cases, rng)
+    obs = observe(cases, ['c14'])
+    recs = records(cases, obs, 'c14')
+    j = tlc_judge('Judge_C14', recs, cfg='Judge.cfg', shards=NCPU)
+    v.add_judgement('Judge_C14', j, {r['id']: r for r in recs},
+                    nontrivial=sum(1 for g in cases if nontrivial(g)))
+    v.cov['rule'] = ('graphs as in C13 x all ordered pairs x simulate_root x two lch depths x '
+                     'two weight assignments (arbitrary positive, power-of-two); '
+                     'non-trivial = at least two hypernym edges')
+    for g in cases[700:702]:
+        v.sample({'graph': g, 'observed_sim_rows': (obs[g['id']].get('c14') or {}).get('sim', [])[:6]})
+    return v.finish()
+
+
+def add_corpora(cases, rng):
+    forms = ['w1', 'w2', 'w3', 'two words', 'W5']
+    for g in cases:
+        n = g['n']
+        words = []
+        for f in forms[:rng.randint(1, len(forms))]:
+            k = rng.choice([1, 1, 2, 3])
+            words.append([f, sorted(rng.sample(range(1, n + 1), min(k, n)))])
+        g['words'] = words
+        g['corpora'] = []
+        for _ in range(2):
+            toks = [rng.choice([w[0] for w in words] + ['unknown', 'w1'])
+                    for _ in range(rng.randint(0, 5))]
+            g['corpora'].append({'tokens': toks, 'distribute': rng.random() < 0.5,
+                                 'smoothing': rng.choice([[0, 1], [1, 2], [1, 1], [1, 1]])})
+
+
+def c15(tier: str) -> int:
+    v = Verdict('C15', tier)
+    v.assumptions = [
+        'weights are compared as exact rationals (floats converted with tolerance 1e-9)',
+        'graphs have one (folded) part of speech each: the property does not say what a '
+        'hypernym of another part of speech receives',
+        'load() is exercised on generated WordNet::Similarity files by the same judge']
+    thorough = tier == 'thorough'
+    v.add_model('MC_IC N=3 (Conserved, Monotone, counted once)', tlc_model('MC_IC'))
+    rng = random.Random(seed() + 15)
+    cases = graphs.cases(tier, seed() + 15, n4=1500 if not thorough else 30000,
+                         nrandom=300 if not thorough else 8000, maxn=7 if not thorough else 8,
+                         pos_variants=False)
+    k = len(cases)
+    for g in list(cases[:200]):
+        k += 1
+        h = dict(g, id=k, pos=[rng.choice(['a', 's']) for _ in range(g['n'])])
+        cases.append(h)
+    for g in cases:
+        if len(set('a' if p == 's' else p for p in g['pos'])) > 1:
+            g['pos'] = ['n'] * g['n']
+    add_corpora(cases, rng)
+    obs = observe(cases, ['c15'])
+    recs = records(cases, obs, 'c15')
+    j = tlc_judge('Judge_C15', recs, cfg='Judge.cfg', shards=NCPU)
+    v.add_judgement('Judge_C15', j, {r['id']: r for r in recs},
+                    nontrivial=sum(1 for g in cases if nontrivial(g) and any(c['tokens'] for c in g['corpora'])))
+    v.cov['rule'] = ('graphs as in C13 (one part of speech each, incl. a/s mixes) x words mapped '
+                     'to 1-3 synsets x two corpora (known, unknown, ambiguous, multi-word tokens) x '
+                     'distribute x smoothing in {0, 1/2, 1}; non-trivial = >=2 edges and a non-empty corpus')
+    for g in cases[530:532]:
+        v.sample({'graph': g, 'observed': (obs[g['id']].get('c15') or {}).get('tot')})
+    return v.finish()
